@@ -114,7 +114,7 @@ def mint(ctx):
         slack = 2 + w0 / (sb - lo_p) + (lo_p * sb) / Q96 / (sb - lo_p) + D(Q96) / (hi_p - sa)
     # (the last terms account for truncating the offered amounts to whole wei)
     if below or above:
-        ctx.check("liquidity is maximal up to the integer rounding (one unit + offered token0 / sqrt-price span)", L >= lmax - slack)
+        ctx.check("liquidity is maximal up to the integer rounding (one unit + offered token0 / sqrt-price span)", L >= lmax - slack - lmax * REL)  # REL: the oracle's own constants are 35-digit Decimals (liquidity reaches 1e35 next to MAX_TICK)
     else:
         # in range the obligation has two nested floors over symbolic price and amounts; it is discharged in four steps
         # (i) token0 side, (ii) token1 side, (iii) the function returns the smaller side, (iv) min is monotone (abstract lemma)
@@ -125,8 +125,8 @@ def mint(ctx):
         L1 = get_liquidity_for_amount1(int(sa), s, w1i)
         s0 = 1 + w0 / (sb - lo_p) + (lo_p * sb) / Q96 / (sb - lo_p)
         s1 = 1 + D(Q96) / (hi_p - sa)
-        ctx.check("maximality (i): token0-side liquidity >= real value - 1 - offered0/span", L0 >= l0_real - s0)
-        ctx.check("maximality (ii): token1-side liquidity >= real value - 1", L1 >= l1_real - s1)
+        ctx.check("maximality (i): token0-side liquidity >= real value - 1 - offered0/span", L0 >= l0_real - s0 - l0_real * REL)
+        ctx.check("maximality (ii): token1-side liquidity >= real value - 1", L1 >= l1_real - s1 - l1_real * REL)
         ctx.check("maximality (iii): in range the minted liquidity is the smaller side", L == smin(L0, L1))
         if ctx.sym:
             import z3
